@@ -214,7 +214,7 @@ pub(crate) fn convert_inner(
     cache: &mut converter::Cache,
     parent: &mut Group,
 ) -> Option<()> {
-    let aligned_size = fit_view_box(actual_size, rect, aspect);
+    let aligned_size = fit_view_box(actual_size, rect, aspect)?;
     let (aligned_x, aligned_y) = crate::aligned_pos(
         aspect.align,
         rect.x(),
@@ -376,14 +376,26 @@ pub(crate) fn load_sub_svg(data: &[u8], opt: &Options) -> Option<ImageKind> {
 }
 
 /// Fits size into a viewbox.
-fn fit_view_box(size: Size, rect: NonZeroRect, aspect: AspectRatio) -> Size {
+fn fit_view_box(size: Size, rect: NonZeroRect, aspect: AspectRatio) -> Option<Size> {
     let s = rect.size();
 
     if aspect.align == svgtypes::Align::None {
-        s
-    } else if aspect.slice {
-        size.expand_to(s)
+        return Some(s);
+    }
+
+    // The same as `Size::expand_to`/`Size::scale_to`, but without a panic
+    // when the scaled side is not a valid length (zero or not finite).
+    let rw = s.height() * size.width() / size.height();
+    let with_h = if aspect.slice {
+        rw <= s.width()
     } else {
-        size.scale_to(s)
+        rw >= s.width()
+    };
+
+    if !with_h {
+        Size::from_wh(rw, s.height())
+    } else {
+        let h = s.width() * size.height() / size.width();
+        Size::from_wh(s.width(), h)
     }
 }
